@@ -177,3 +177,22 @@ where
         self.find_standard_H_and_cones()
     }
 }
+
+// verification hooks (add-only): the private helpers of the standard transformation
+#[cfg(feature = "verif-hooks")]
+impl<T> ChordalInfo<T>
+where
+    T: FloatT,
+{
+    pub(crate) fn vh_find_H_col_dimension(&self) -> usize {
+        self.find_H_col_dimension()
+    }
+    pub(crate) fn vh_decompose_with_cone(
+        H_I: &mut Vec<usize>,
+        cones_new: &mut Vec<SupportedConeT<T>>,
+        cone: &SupportedConeT<T>,
+        row: usize,
+    ) {
+        decompose_with_cone(H_I, cones_new, cone, row)
+    }
+}
